@@ -287,6 +287,17 @@ theorem gz_run_accepted_whole (limit : Nat) (calls : List (Str × List Ans))
   have hi := (ginv_run limit calls {} ⟨by simp [total], fun _ => by simp [total]⟩).2 h
   rw [← hi, gzRun_size]; simp
 
+/-- … and the connection is closed: the wrapper's HTTPInputError reaches the `except HTTPInputError` arm of the connection
+    (`gzRefusal`, C04/Model.lean — compared with the implementation's events on every refusing gzip case): 400, close,
+    `on_connection_close`, whatever state `s` the connection machine was in -/
+theorem gz_beyond_conn_closed (limit : Nat) (calls : List (Str × List Ans)) (s : St)
+    (h : gzProduced limit calls {} > limit) :
+    (gzRefusal s (gzRun limit calls {})).phase = .closed ∧
+      (gzRefusal s (gzRun limit calls {})).out = .connClose :: .closed :: .w400 :: s.out := by
+  have hr := (gz_run_beyond_refused limit calls h).1
+  simp only [gzRefusal, hr, if_true]
+  exact ⟨rfl, reject400_out_true s⟩
+
 -- non-vacuity: limit 5; the second answer of the second call takes the output to 7
 example : gzProduced 5 [([1], [([9, 9, 9], 0)]), ([2, 3], [([8], 1), ([7, 7, 7], 0)]), ([4], [([6], 0)])] {} = 7 ∧
     (gzRun 5 [([1], [([9, 9, 9], 0)]), ([2, 3], [([8], 1), ([7, 7, 7], 0)]), ([4], [([6], 0)])] {}).delivered
@@ -317,6 +328,35 @@ theorem run_cl_within_delivered (cfg : Cfg) (pre segs : List Str) (k n : Nat) (m
   rw [run_append]
   exact run_cl_within_gen cfg _ segs (step_run_init cfg pre) hp k n m t v h hostv hk hfit hparse hka hhost
     (cl_at_limit_ok _ (n + 1) h cv hcl hv hn hle hte) hall
+
+/-- chunked, within the limit (equality included): at a chunk-size line of any reachable run, a chunk whose declared
+    size, added to the bytes already handed over for this request (`dataLen` of the trace), stays within the request's
+    effective limit and which is completely buffered with its CRLF is handed over; the machine is at the next chunk-size
+    line with the rest of the bytes -/
+theorem run_chunk_within_delivered (cfg : Cfg) (pre segs : List Str) (total loc n : Nat) (rest : Str)
+    (hp : (run cfg init pre).phase = .chunkSize total)
+    (hloc : findCrlf ((run cfg init pre).buf ++ segs.flatten) = some loc) (hshort : loc + 2 ≤ chunkLineMax)
+    (hsz : parseHexInt (((run cfg init pre).buf ++ segs.flatten).take loc) = some (n + 1))
+    (hfit : dataLen ((run cfg init pre).idx - 1) (run cfg init pre).out + (n + 1)
+      ≤ effLimit cfg ((run cfg init pre).idx - 1))
+    (hcr : ((run cfg init pre).buf ++ segs.flatten).drop (loc + 2 + (n + 1)) = 13 :: 10 :: rest) :
+    ∃ s2, run cfg init (pre ++ segs) = drain cfg s2 ∧ s2.phase = .chunkSize (total + (n + 1)) ∧
+      s2.idx = (run cfg init pre).idx ∧ s2.buf = rest ∧
+      s2.out = pushEv (run cfg init pre).out (.data ((run cfg init pre).idx - 1)
+        ((((run cfg init pre).buf ++ segs.flatten).drop (loc + 2)).take (n + 1))) := by
+  obtain ⟨ht, hl⟩ := inv_chunkSize (inv_run init pre (inv_init cfg)) hp
+  rw [run_append]
+  obtain ⟨s2, h1, h2, h3, _, h5, h6⟩ :=
+    run_chunk_within_gen cfg _ segs (step_run_init cfg pre) total loc n rest hp hloc hshort hsz (by omega) hcr
+  exact ⟨s2, h1, h2, h3, h5, h6⟩
+
+-- non-vacuity: limit 4, chunks "ab" and "cd": the second one reaches the limit exactly and is delivered
+example : (run { maxBody := 4 } init [[80, 32, 47, 32, 72, 84, 84, 80, 47, 49, 46, 49, 10, 72, 111, 115, 116, 58, 120, 10, 84, 114,
+    97, 110, 115, 102, 101, 114, 45, 69, 110, 99, 111, 100, 105, 110, 103, 58, 99, 104, 117, 110, 107, 101, 100, 10, 10],
+    [50, 13, 10, 97, 98, 13, 10], [50, 13], [10, 99, 100, 13, 10]]).phase = .chunkSize 4 ∧
+  (run { maxBody := 4 } init [[80, 32, 47, 32, 72, 84, 84, 80, 47, 49, 46, 49, 10, 72, 111, 115, 116, 58, 120, 10, 84, 114,
+    97, 110, 115, 102, 101, 114, 45, 69, 110, 99, 111, 100, 105, 110, 103, 58, 99, 104, 117, 110, 107, 101, 100, 10, 10],
+    [50, 13, 10, 97, 98, 13, 10], [50, 13], [10, 99, 100, 13, 10]]).out.head? = some (.data 0 [97, 98, 99, 100]) := by decide
 
 -- non-vacuity: limit 3 with override 5 for the first request; exactly 5 bytes are delivered whole
 example : (run smallCfg init [fiveByteReq]).out
